@@ -1,2 +1,26 @@
 import STProofs.Layout
-/-! # C09 — decision-vector layout, dimension, layout cache under reconfiguration -/
+import STProofs.RoundTrip
+/-!
+# C09 — decision-vector layout, dimension, initial-guess round trip, pinning, exposed spline
+
+* layout and dimension: `layout_spec` (times, then the optimised waypoints in index order at consecutive offsets, then the
+  flagged derivative blocks the order has; total = the sum), `derivBlocks_spec`, `spatialOptimized_iff`;
+  slices are packed: `RoundTrip.layoutFrom_packed`;
+* **round trip**: `RoundTrip.roundtrip` — for maps that invert each other on the reference data (`RefOK`; e.g. the
+  identity maps, `refOK_identity`, or the default time map by `toTime_toTau`), the generated initial guess decodes back to
+  the reference durations, waypoints and boundary states, for every N, order, dimension and flag set;
+* **pinning**: `RoundTrip.decode_pinned_waypoint`, `RoundTrip.decode_pinned_block` — for *every* decision vector a
+  waypoint that is not optimised and a boundary block that is not flagged keep their reference values;
+* **exposed spline**: `C09_exposed_spline` — the spline an evaluation leaves behind is the one built from the decoded
+  decision vector;
+* layout cache under reconfiguration: `lcache_history`.
+-/
+open ST
+
+/-- the spline exposed after an evaluation is the spline of the decoded decision vector -/
+theorem C09_exposed_spline {α : Type} [NumOrd α] (c : Config α) (x : List α) (costs : Costs α) :
+    (evaluate c x costs).spline
+      = buildND c.order c.dim (decode c x).times (decode c x).waypoints c.startTime (decode c x).bc := rfl
+
+theorem C09_decoded {α : Type} [NumOrd α] (c : Config α) (x : List α) (costs : Costs α) :
+    (evaluate c x costs).decoded = decode c x := rfl
